@@ -822,7 +822,7 @@ class Interp(object):
                     self.rebind(f.value, lst, fr)
                 born = getattr(lst, '_born', 0)
                 if len(self.loops) > born:
-                    lst.items.append(('fold', self.loops[-1][0], tuple(self.guards[getattr(lst, '_gborn', 0):]), v))
+                    lst.items.append(('fold', self.loops[-1][0], tuple(self.guards[getattr(lst, '_gborn', 0):]), v, self.loops[-1][1]))
                 else:
                     lst.items.append(('item', v))
                 return NONE
@@ -1331,6 +1331,10 @@ class Interp(object):
                     parts.append((None, item[1]))
                 elif item[0] == 'taint':
                     parts.append((Coll('opaque', item[1]), None))
+                elif len(item) > 4 and isinstance(item[4], Coll):
+                    # the elements collected from a loop over a known collection, under the conditions they were collected
+                    # under: ranging over them is ranging over that collection again, restricted by those conditions
+                    parts.append((item[4], item[3], tuple(item[2])))
                 else:
                     parts.append((Coll('folded', item[1]), item[3]))
         elif isinstance(it, Tup):
@@ -1340,7 +1344,11 @@ class Interp(object):
             parts.append((Coll('opaque', unparse(s.iter)), None))
         kinds = set()
         self.widen_carried(s, fr)
-        for coll, elem in parts:
+        for part in parts:
+            coll, elem = part[0], part[1]
+            extra_guards = part[2] if len(part) > 2 else ()
+            for g_ in extra_guards:
+                self.guards.append(g_)
             if coll is not None:
                 ck = coll.show()
                 self.loops.append((ck, coll))
@@ -1361,6 +1369,8 @@ class Interp(object):
             else:
                 self.assign(s.target, elem, fr, s)
                 k = self.block(s.body, fr)
+            for g_ in extra_guards:
+                self.guards.pop()
             kinds |= (k - {CONT, BREAK, NORMAL})
         if s.orelse:
             self.block(s.orelse, fr)
